@@ -803,7 +803,7 @@ func (e *Env) call(x *ssa.Call) *Term {
 		return &Term{Op: "len", Args: args}
 	}
 	if e.Inline && e.Depth < 4 {
-		if f := c.StaticCallee(); f != nil && InModule(f) && len(f.Blocks) == 1 && f.Synthetic == "" {
+		if f := c.StaticCallee(); f != nil && InModule(f) && f.Synthetic == "" && (len(f.Blocks) == 1 || InlineLockedAccessors && len(f.Blocks) == 2 && f.Blocks[1].Comment == "recover") {
 			if r := e.inlineSingle(f, c, args, x); r != nil {
 				return r
 			}
@@ -815,6 +815,10 @@ func (e *Env) call(x *ssa.Call) *Term {
 	return &Term{Op: "call", Name: name, Args: args, ID: e.prefix + x.Name()}
 }
 
+// InlineLockedAccessors also substitutes straight-line callees of the form Lock; defer Unlock; return expr. The matcher rules
+// keep it off (they recognise the locked lookups as calls); provenance rules that only follow values switch it on.
+var InlineLockedAccessors bool
+
 // inlineSingle substitutes a single-block module callee (accessor).
 func (e *Env) inlineSingle(f *ssa.Function, c *ssa.CallCommon, args []*Term, site *ssa.Call) *Term {
 	blk := f.Blocks[0]
@@ -823,8 +827,14 @@ func (e *Env) inlineSingle(f *ssa.Function, c *ssa.CallCommon, args []*Term, sit
 		return nil
 	}
 	for _, in := range blk.Instrs {
-		switch in.(type) {
-		case *ssa.Defer, *ssa.Go, *ssa.Panic:
+		switch x := in.(type) {
+		case *ssa.Defer:
+			// a locked accessor (mu.Lock(); defer mu.Unlock(); return expr) is still a straight-line function of its arguments
+			if cal := x.Call.StaticCallee(); cal != nil && cal.Pkg != nil && cal.Pkg.Pkg.Path() == "sync" && (cal.Name() == "Unlock" || cal.Name() == "RUnlock") {
+				continue
+			}
+			return nil
+		case *ssa.Go, *ssa.Panic:
 			return nil
 		}
 	}
